@@ -542,8 +542,8 @@ def run(ctx: Ctx) -> None:
                  scenario("AAAAA", 3, 4, gaps={4: 2}), scenario("AB", 0, 2), scenario("AAA", 1, 2, gaps={1: 1}),
                  scenario("ABAB", 2, 2, 1, gaps={2: 3})]
     bound = ctx.pick(2, 3)
-    max_runs = ctx.pick(160, 2500)
-    nrand = ctx.pick(60, 700)
+    max_runs = ctx.pick(160, 1200)
+    nrand = ctx.pick(60, 350)
     explored = {}
     for si, scn in enumerate(scns):
         cnt = 0
